@@ -17,7 +17,7 @@
 #include <stdlib.h>
 
 enum { F_PAGE_RETURNED, F_REALLOC_SMALL_TO_LARGE, F_REALLOC_LARGE_TO_SMALL, F_REALLOC_SHRINK_IN_PLACE, F_REALLOC_WITHIN_BIN, F_CALLOC, F_ALL_BINS,
-       F_LARGE_BLOCKS, F_DRAINED_TO_FIVE_PAGES, F_CROSS_THREAD_RELEASE, F_MANY_PAGES, F_CHUNK_REUSED, F_REALLOC_FROM_NULL, F_REALLOC_TO_ZERO, F_SECOND_INSTANCE, F_HUGE_REQUEST };
+       F_LARGE_BLOCKS, F_DRAINED_TO_FIVE_PAGES, F_CROSS_THREAD_RELEASE, F_MANY_PAGES, F_CHUNK_REUSED, F_REALLOC_FROM_NULL, F_REALLOC_TO_ZERO, F_SECOND_INSTANCE, F_HUGE_REQUEST, F_MANY_FULL_PAGES };
 
 #define PAGE 4096u
 
@@ -651,6 +651,80 @@ static void huge_case(void) {
     mon_flag(F_HUGE_REQUEST);
 }
 
+/* one case per -O2 stage run: more than 65 536 completely full pages in one size class (460 000 live 512-byte blocks,
+ * about 260 MiB), then one late page emptied: bookkeeping that is indexed per page must not wrap */
+static void many_pages_case(void) {
+    struct mon_rng *r = &mon_case_rng;
+    mon_fp(0x9A6E5);
+    struct aws_allocator *sba = aws_small_block_allocator_new(mon_guard_allocator_full(), mon_chance(r, 1, 2));
+    if (!sba) {
+        mon_violation("C03:new-failed", "aws_small_block_allocator_new returned NULL");
+        return;
+    }
+    const size_t per_page = (PAGE - 32) / 512; /* 7 */
+    const size_t npages = 65600 + (size_t)mon_below(r, 64);
+    const size_t n = npages * per_page;
+    uint8_t **blk = malloc(n * sizeof(*blk));
+    uint64_t v0 = mon_violations();
+    for (size_t i = 0; i < n; ++i) {
+        blk[i] = aws_mem_acquire(sba, 300 + (i & 127));
+        if (!blk[i]) {
+            mon_violation("C03:null-block", "acquire number %zu returned NULL", i);
+            free(blk);
+            return;
+        }
+        memcpy(blk[i], &i, sizeof(i));
+    }
+    size_t live = n;
+    if (aws_small_block_allocator_bytes_active(sba) != live * 512) {
+        mon_violation("C03:bytes-active", "%zu live blocks of class 512: bytes_active = %zu", live, aws_small_block_allocator_bytes_active(sba));
+    }
+    /* empty a few late pages (blocks are handed out page by page, so 7 consecutive blocks share a page) */
+    for (int k = 0; k < 4 && mon_violations() == v0; ++k) {
+        size_t page = 65536 + (size_t)mon_below(r, npages - 65536);
+        for (size_t j = 0; j < per_page; ++j) {
+            size_t i = page * per_page + j;
+            if (blk[i]) {
+                aws_mem_release(sba, blk[i]);
+                blk[i] = NULL;
+                --live;
+            }
+        }
+        size_t got = aws_small_block_allocator_bytes_active(sba);
+        if (got != live * 512) {
+            mon_violation("C03:bytes-active", "after emptying page number %zu of %zu full pages of class 512: bytes_active = %zu, live blocks account for %zu (difference %lld)", page,
+                          npages, got, live * 512, (long long)got - (long long)(live * 512));
+        }
+    }
+    /* contents of a sample and of everything around the emptied pages */
+    for (size_t i = 0; i < n && mon_violations() == v0; i += (i > 65000 * per_page ? 1 : 997)) {
+        size_t tag;
+        if (blk[i]) {
+            memcpy(&tag, blk[i], sizeof(tag));
+            if (tag != i) {
+                mon_violation("C03:contents", "block %zu of %zu lost its contents after late pages were emptied", i, n);
+            }
+        }
+    }
+    for (size_t i = 0; i < n; ++i) {
+        if (blk[i]) {
+            aws_mem_release(sba, blk[i]);
+        }
+    }
+    if (mon_violations() == v0) {
+        if (aws_small_block_allocator_bytes_active(sba) != 0) {
+            mon_violation("C03:bytes-active-after-drain", "everything released but bytes_active = %zu", aws_small_block_allocator_bytes_active(sba));
+        }
+        if (aws_small_block_allocator_bytes_reserved(sba) > PAGE) {
+            mon_violation("C03:bytes-reserved-after-drain", "everything released (one size class used) but bytes_reserved = %zu", aws_small_block_allocator_bytes_reserved(sba));
+        }
+        aws_small_block_allocator_destroy(sba);
+    }
+    free(blk);
+    mon_flag(F_MANY_FULL_PAGES);
+    mon_count("cases_with_more_than_65536_full_pages", 1);
+}
+
 static void seq_case(void) {
     struct mon_rng *r = &mon_case_rng;
     struct mon_alloc_stats st0;
@@ -1006,7 +1080,7 @@ int main(int argc, char **argv) {
     static const char *names[] = {"page_returned_to_os", "realloc_small_to_large", "realloc_large_to_small", "realloc_shrink_in_place", "realloc_within_bin", "calloc",
                                   "all_five_bins_used", "blocks_above_512_from_parent", "drained_to_at_most_five_pages", "block_released_by_another_thread",
                                   "twelve_or_more_pages_reserved", "freed_chunk_reused", "realloc_from_null", "realloc_to_zero",
-                                  "second_single_threaded_instance_alive_during_threaded_phase", "request_above_2GiB_forwarded_to_parent"};
+                                  "second_single_threaded_instance_alive_during_threaded_phase", "request_above_2GiB_forwarded_to_parent", "more_than_65536_full_pages_in_one_class"};
     for (int i = 0; i < (int)(sizeof(names) / sizeof(names[0])); ++i) {
         mon_flag_name(i, names[i]);
     }
@@ -1021,6 +1095,13 @@ int main(int argc, char **argv) {
         if (thr) {
             thr_case();
         } else {
+#ifndef DEBUG_BUILD
+            if (c == 1000) { /* once per -O2 stage run */
+                many_pages_case();
+                mon_case_end(true);
+                continue;
+            }
+#endif
             if (c % 64 == 63) {
                 huge_case();
             } else {
